@@ -148,4 +148,21 @@ PROPS = {
         "assumptions": ["in-memory listener instead of TCP", "grpc-go v1.56.3 as pinned by the repository"],
         "parts": [rapid("interceptors", "TestProp", 8000, 120000), plain("nil-passthrough", "TestNil")],
     },
+    "C03": {
+        "pkg": "c03",
+        "level": "exploration",
+        "level_text": "Generated taint search with shrinking: every generated string carries a unique token and is classified by the channel it entered through; "
+                      "after building the tree, after 0-2 hops, at a process that knows none / a random subset of the types (two independent simulations) and after "
+                      "such an intermediary, every output the library declares PII-free (redacted %v / %+v, all safe details, every reportable payload on the wire "
+                      "including nested ones, the whole Sentry event as JSON and every extra) is searched for tokens that entered only through unsafe channels. "
+                      "Thorough adds coverage-guided native fuzzing of the same property (rapid.MakeFuzz).",
+        "level_note": "The channel table (what is unsafe / declared safe / neutral) is taken from the property statement and the README's list; parts a user type "
+                      "itself declares safe and type-mark extensions of Mark references are neutral.",
+        "technique": "property-based testing (rapid) with taint tokens over hostile strings; thorough: Go native fuzzing through rapid.MakeFuzz",
+        "rule": "rapid-generated trees over the hostile alphabet (marker runes, newlines anywhere, empty, NUL, invalid UTF-8, printf verbs; 1 in 4 cases regular) x "
+                "{local, 1-2 hops} x {no / all-unknown / partially-unknown process}. Non-trivial = at least one unsafe-only token and one declared-safe token in the "
+                "tree and a hostile atom inside an unsafe string (or the regular alphabet). Distinct = hash of the case JSON.",
+        "assumptions": ["a leak is detected by token search; tokens are ASCII and survive escaping, quoting and JSON encoding (JSON is decoded before the search)"],
+        "parts": [rapid("taint", "TestProp", 12000, 200000)],
+    },
 }
